@@ -46,9 +46,9 @@ theorem key_roundtrip :
     (domainKeys.all fun k => allModes.all fun md => roundtripOK asciiUni k md.1 md.2) = true := by
   decide +kernel
 
-/-- Non-vacuity: 2125 of the 4840 events are in `XtermDomain`. -/
+/-- Non-vacuity: 2165 of the 4880 events are in `XtermDomain`. -/
 theorem key_roundtrip_domain_size :
-    (domainKeys.filter fun k => XtermDomain asciiUni k).length = 2125 ∧ domainKeys.length = 4840 := by
+    (domainKeys.filter fun k => XtermDomain asciiUni k).length = 2165 ∧ domainKeys.length = 4880 := by
   decide +kernel
 
 /-- Table part of `cursor_mode_selects`, over the regenerated tables: for every cursor key, both
@@ -57,7 +57,7 @@ theorem cursor_tables :
     ∀ e ∈ cursorKeys, ∀ md ∈ allModes, encodeTables e.1 0 md.1 md.2 = some (renderSeq (cursorSeq e.2 md.2)) := by
   decide
 
-/-- **cursor_mode_selects.** An unmodified cursor key (Up/Down/Right/Left/End/Home) is sent in SS3
+/-- **cursor_mode_selects.** An unmodified cursor key (Up/Down/Right/Left/End/Home/Begin) is sent in SS3
     form when the child set DECCKM and in CSI form otherwise — whatever the other fields of the
     event, the keypad mode and the `unicode` tables. -/
 theorem cursor_mode_selects (u : Uni) (k : Key) (deckpam decckm : Bool) (fin : Int)
@@ -67,11 +67,12 @@ theorem cursor_mode_selects (u : Uni) (k : Key) (deckpam decckm : Bool) (fin : I
   obtain ⟨h1, h2, h3⟩ := hm
   have hmode : (deckpam, decckm) ∈ allModes := by cases deckpam <;> cases decckm <;> decide
   have := cursor_tables _ hk _ hmode
-  have hlt : k.keycode < KeyKeyPad0 := by
-    have hall : (cursorKeys.all fun e => decide (e.1 < KeyKeyPad0)) = true := by decide
-    simp only [List.all_eq_true, decide_eq_true_eq] at hall
+  have hnk : lookup k.keycode VaxisModel.Gen.TermKeys.keypadApplicationMode = none ∧
+      lookup k.keycode VaxisModel.Gen.TermKeys.keypadNumericMode = none := by
+    have hall : ∀ e ∈ cursorKeys, lookup e.1 VaxisModel.Gen.TermKeys.keypadApplicationMode = none ∧
+        lookup e.1 VaxisModel.Gen.TermKeys.keypadNumericMode = none := by decide
     exact hall _ hk
-  rw [encodeXterm_core_of_lt _ _ _ _ hlt]
+  rw [encodeXterm_core_of_not_keypad _ _ _ _ hnk.1 hnk.2]
   simp only [encodeXtermCore, h1, h2, h3, Nat.or_self]
   simp only [] at this
   rw [encodeTables_text _ _ _ _ _ (cursorKeys_special _ hk), this]
